@@ -90,6 +90,14 @@ func (h *histProp) Plan(tier string, seed int64) []core.Segment {
 				tp = 6
 			}
 			segs = append(segs, core.Segment{Kind: "twophase:" + t, N: tp * tierScale(tier, 10), Chunk: 2})
+			if !sa {
+				// blocks larger than 64 KiB (also sizes that are no multiple
+				// of 64 KiB) with several of them buffered: every sequence
+				// of four Parse calls over flags 0 / NoTrailingLiterals /
+				// nil block
+				a := int64(len(shapeAlphabet(h.weights)) - 2)
+				segs = append(segs, core.Segment{Kind: "bigblocks:" + t, N: a * a * a * a, Chunk: 9})
+			}
 			if sa {
 				// short operation shapes on more than 64 Ki buffered positions:
 				// a sample in the quick tier, all of them in the thorough tier
@@ -279,7 +287,7 @@ func (h *histProp) Gen(kind string, idx int64, seed int64, tier string) core.Cas
 		pc = GenPCase(r, typ, o, h.weights, 40, 300000+r.Intn(300000))
 		pc.Cfg.BufferSize = 135000 + r.Intn(130000)
 		pc.Cfg.ShrinkSize = []int{0, 1000, 70000, pc.Cfg.BufferSize / 3}[r.Intn(4)]
-		pc.Cfg.BlockSize = []int{8192, 16384, 32768, 32768, 65536, 50000}[r.Intn(6)]
+		pc.Cfg.BlockSize = []int{8192, 16384, 32768, 32768, 65536, 50000, 65537, 70000, 100000, 131073}[r.Intn(10)]
 		pc.Cfg.WindowSize = []int{0, 1 << 16, 1 << 17, 1 << 18, 4096}[r.Intn(5)]
 		if (typ == "GSAP" || typ == "OSAP") && pc.Cfg.WindowSize == 0 {
 			pc.Cfg.WindowSize = 1 << 17
@@ -404,6 +412,30 @@ func (h *histProp) Gen(kind string, idx int64, seed int64, tier string) core.Cas
 			ops = append(ops, POp{K: "parse"})
 		}
 		pc = PCase{Cfg: c, Family: f, Stream: stream, Ops: ops}
+	case "bigblocks":
+		var alpha []POp
+		for _, op := range shapeAlphabet(h.weights) {
+			if op.K == "parse" {
+				alpha = append(alpha, op)
+			}
+		}
+		c := gen.SmallCfg(r, typ, o)
+		c.BlockSize = []int{65537, 70000, 100000, 131073, 1 << 16, 1 << 17, 65535, 196609}[r.Intn(8)]
+		c.BufferSize = 4*c.BlockSize + 1000 + r.Intn(5000)
+		c.ShrinkSize = r.Intn(c.BufferSize / 2)
+		c.WindowSize = []int{0, 1 << 16, 1 << 20, 4096}[r.Intn(4)]
+		fam, stream := gen.Bytes(r, c.BufferSize+c.BlockSize, c.Hint())
+		ops := []POp{{K: "write", A: 1, B: 0}}
+		code := idx
+		for j := 0; j < 4; j++ {
+			ops = append(ops, alpha[code%int64(len(alpha))])
+			code /= int64(len(alpha))
+		}
+		ops = append(ops, POp{K: "shrink"}, POp{K: "write", A: 1, B: 0})
+		for j := 0; j < 6; j++ {
+			ops = append(ops, POp{K: "parse"})
+		}
+		pc = PCase{Cfg: c, Family: fam, Stream: stream, Ops: ops}
 	case "shapes":
 		// [Write of more than 64 KiB, Parse] followed by every sequence of 5
 		// operations over Parse / Parse(NoTrailingLiterals) / Parse(nil) /
@@ -829,10 +861,23 @@ func (o *c03obs) Observe(ev *PEvent, ps *PState) (string, string) {
 		}
 		return "", ""
 	}
-	if ev.Nil {
-		return "", "" // C14's business
-	}
 	unparsed := ev.PreFed - ev.PreW
+	if ev.Nil {
+		// what Parse(nil) returns in detail is C14's business; the bounds of
+		// n and the ErrEmptyBuffer rule hold for every Parse call
+		switch {
+		case unparsed == 0:
+			if ev.Err != lz.ErrEmptyBuffer || ev.N != 0 {
+				return "no-ErrEmptyBuffer", fmt.Sprintf("Parse(nil): no unparsed data but err=%v n=%d", ev.Err, ev.N)
+			}
+		case ev.Err != nil:
+			return "unexpected-error", fmt.Sprintf("Parse(nil) with %d unparsed bytes returned %v", unparsed, ev.Err)
+		case !(1 <= ev.N && ev.N <= int64(ps.BlockSize)) || ev.N > unparsed:
+			return "n-out-of-range", fmt.Sprintf("Parse(nil): n=%d not in [1, BlockSize=%d] with %d unparsed bytes", ev.N, ps.BlockSize, unparsed)
+		}
+		o.st.Inc("parse_nil_calls")
+		return "", ""
+	}
 	blk := ev.Blk
 	if unparsed == 0 {
 		if ev.Err != lz.ErrEmptyBuffer {
@@ -938,7 +983,7 @@ func init() {
 			mandatory:   []string{"quadrant:flags0,seqs", "quadrant:flags0,noseqs", "quadrant:ntl,seqs", "quadrant:ntl,noseqs", "empty_buffer_reports", "unparsed>BlockSize", "unparsed<BlockSize", "second_parse_of_a_fill", "ntl_blocks_with_bytes_offered_again", "wrap:parse_calls_that_refilled", "wrap:blocks_with_match"},
 			expected:    []string{"unparsed==BlockSize"}},
 		types: gen.ParserTypes, quickN: 12000, thorMul: 80, corpusN: 300, large: true,
-		weights: HWeights{Write: 18, ReadFrom: 8, Parse: 26, ParseNTL: 22, ParseNil: 0, Shrink: 10, Reset: 1, ResetData: 2, WParse: 10, Faults: true},
+		weights: HWeights{Write: 18, ReadFrom: 8, Parse: 26, ParseNTL: 22, ParseNil: 5, Shrink: 10, Reset: 1, ResetData: 2, WParse: 10, Faults: true},
 		newObs: func(pc *PCase, ps *PState, c *core.Case, st *core.Stats) histObserver {
 			return &c03obs{cr: commonReach{st: st}, st: st}
 		},
